@@ -949,7 +949,11 @@ impl Prop for NotifProp {
                     let s = f["at_ms"].as_u64().unwrap_or(0) * 1_000_000;
                     (f["node"].as_u64().unwrap_or(0) as usize, s, s + f["heal_after_ms"].as_u64().unwrap_or(0) * 1_000_000)
                 }).collect();
-                let ctx = Ctx { log: &log, dead: &dead, table: &table, n, end_ns, t1_ns: t1 * 1_000_000, t2_ns: t2 * 1_000_000, max_size, should_dial: &should_dial, auto_accept: &auto_accept, freezes: &freezes, rogue: if case["rogue"].is_string() { Some(n + 1) } else { None } };
+                let partitions: Vec<(usize, usize, u64, u64)> = faults.iter().filter(|f| f["kind"] == "partition").map(|f| {
+                    let s = f["at_ms"].as_u64().unwrap_or(0) * 1_000_000;
+                    (f["a"].as_u64().unwrap_or(0) as usize, f["b"].as_u64().unwrap_or(0) as usize, s, s + f["heal_after_ms"].as_u64().unwrap_or(0) * 1_000_000)
+                }).collect();
+                let ctx = Ctx { partitions: &partitions, log: &log, dead: &dead, table: &table, n, end_ns, t1_ns: t1 * 1_000_000, t2_ns: t2 * 1_000_000, max_size, should_dial: &should_dial, auto_accept: &auto_accept, freezes: &freezes, rogue: if case["rogue"].is_string() { Some(n + 1) } else { None } };
                 let vs = ctx.check();
                 if let Some((class, detail)) = vs.into_iter().find(|(c, _)| c.starts_with(&my_prefix)) {
                     h.violation(class, detail);
@@ -979,6 +983,8 @@ struct Ctx<'a> {
     auto_accept: &'a [bool],
     /// process stalls of the plan: (node, start ns, end ns)
     freezes: &'a [(usize, u64, u64)],
+    /// partitions of the plan: (host a, host b, start ns, heal ns)
+    partitions: &'a [(usize, usize, u64, u64)],
     /// index of the rogue notification peer, if the run has one
     rogue: Option<usize>,
 }
@@ -1271,7 +1277,11 @@ impl<'a> Ctx<'a> {
                 let remote_reads = self.log.iter().filter(|q| q.node == *peer && q.t >= t0 && q.t <= r.t && matches!(&q.k, K::ERecv { .. })).count();
                 // a stalled process neither reads (receiver) nor drives its own send (sender)
                 let frozen = self.stalled_within(*peer, t0, r.t) || self.stalled_within(i, t0, r.t);
-                if !closed_local && !remote_stalled_or_closed && !frozen && remote_reads > 0 && self.alive(*peer) {
+                // nothing is delivered across a partition: the 40 s only count on a network that
+                // carried traffic between the two nodes (a 40 s partition that heals milliseconds
+                // before the limit lets the receiver read a few notifications inside the window)
+                let cut = self.partitions.iter().any(|p| ((p.0 == i && p.1 == *peer) || (p.1 == i && p.0 == *peer)) && p.2 <= r.t && p.3 >= t0 && p.3.min(r.t) - p.2.max(t0) >= 1_000_000_000);
+                if !closed_local && !remote_stalled_or_closed && !frozen && !cut && remote_reads > 0 && self.alive(*peer) {
                     v.push(("c12:async-send-stuck".into(), format!("node {i}: send_async_notification to n{peer} did not complete within 40 s although the stream stayed open and the receiver kept reading (stuck at {})", ts(r.t))));
                 }
             }
